@@ -115,6 +115,16 @@ class RuleMd041(RulePlugin):
             ) and not html_block_contents.startswith("<h1>"):
                 self.report_next_token_error(context, self.__seen_html_block_start)
             self.__have_seen_first_token = True
+        elif token.is_end_of_stream:
+            # The document has no content at all.  The end of stream token has no
+            # position in the document, so report the start of the document.
+            self.report_next_token_error(
+                context,
+                token,
+                line_number_delta=1 - token.line_number,
+                column_number_delta=-1,
+            )
+            self.__have_seen_first_token = True
         elif not token.is_blank_line:
             self.report_next_token_error(context, token)
             self.__have_seen_first_token = True
